@@ -386,13 +386,9 @@ class Parser:
     def parse_prefix_expression(self, stream: TokenStream) -> Expression:
         tok = stream.next_token()
         assert tok.type_ == TokenType.NOT
-        return PrefixExpression(
-            tok,
-            operator="!",
-            right=self.parse_filter_expression(
-                stream, precedence=self.PRECEDENCE_PREFIX
-            ),
-        )
+        right = self.parse_filter_expression(stream, precedence=self.PRECEDENCE_PREFIX)
+        self._raise_for_uncompared_value(right, tok)
+        return PrefixExpression(tok, operator="!", right=right)
 
     def parse_infix_expression(
         self, stream: TokenStream, left: Expression
@@ -407,19 +403,8 @@ class Parser:
             self._raise_for_non_comparable_function(right, tok)
             return ComparisonExpression(tok, left, operator, right)
 
-        if isinstance(left, FilterExpressionLiteral):
-            raise JSONPathSyntaxError(
-                "filter expression literals outside of "
-                "function expressions must be compared",
-                token=left.token,
-            )
-        if isinstance(right, FilterExpressionLiteral):
-            raise JSONPathSyntaxError(
-                "filter expression literals outside of "
-                "function expressions must be compared",
-                token=right.token,
-            )
-
+        self._raise_for_uncompared_value(left, tok)
+        self._raise_for_uncompared_value(right, tok)
         return LogicalExpression(tok, left, operator, right)
 
     def parse_grouped_expression(self, stream: TokenStream) -> Expression:
@@ -652,6 +637,25 @@ class Parser:
 
     def _is_low_surrogate(self, codepoint: int) -> bool:
         return codepoint >= 0xDC00 and codepoint <= 0xDFFF
+
+    def _raise_for_uncompared_value(self, expr: Expression, token: Token) -> None:
+        """Literals and ValueType function results are not tests on their own."""
+        if isinstance(expr, FilterExpressionLiteral):
+            raise JSONPathSyntaxError(
+                "filter expression literals outside of "
+                "function expressions must be compared",
+                token=expr.token,
+            )
+
+        if isinstance(expr, FunctionExtension):
+            func = self.env.function_extensions.get(expr.name)
+            if (
+                isinstance(func, FilterFunction)
+                and func.return_type == ExpressionType.VALUE
+            ):
+                raise JSONPathTypeError(
+                    f"result of {expr.name}() must be compared", token=token
+                )
 
     def _raise_for_non_comparable_function(
         self, expr: Expression, token: Token
